@@ -13,7 +13,7 @@ TRUSTED_BASE = [
 ASSUMPTIONS = ["git 2.39 produces the porcelain v1 text; paths without spaces/quotes/' -> ' (git quotes unusual paths, which bumpver does not decode)"]
 HDR = "From BV Require Import Model.Vcs."
 
-STATUSES = ["clean", "modified-unstaged", "modified-staged", "both", "added", "deleted", "renamed", "untracked"]
+STATUSES = ["clean", "modified-unstaged", "modified-staged", "both", "added", "deleted", "renamed", "untracked", "typechange"]
 
 
 def make_status(prj, kind, target):
@@ -33,6 +33,10 @@ def make_status(prj, kind, target):
         open(p, "a").write(c + "second edit\n")
     elif kind == "deleted":
         os.unlink(p)
+    elif kind == "typechange":
+        # the tracked regular file is replaced by a symbolic link to a copy of itself (git: ` T path`)
+        os.rename(p, p + ".real")
+        os.symlink(os.path.basename(p) + ".real", p)
     elif kind == "renamed":
         # the file arrives at its path through a rename that is staged but not committed
         prj.git("mv", target, "tmp_" + target)
@@ -73,7 +77,8 @@ def run(rep, tier, seed, model_ok=True, effort=1):
             status_text = prj.git("status", "--porcelain")
             commits_before = len(prj.git("log", "--oneline").splitlines())
             before = prj.snapshot()
-            args = ["update", "--patch", "--no-fetch", "--commit"] + (["--allow-dirty"] if allow_dirty else [])
+            # (every third case also passes --ignore-vcs-tag: where the starting version comes from has no bearing on the dirty check)
+            args = ["update", "--patch", "--no-fetch", "--commit"] + (["--allow-dirty"] if allow_dirty else []) + (["--ignore-vcs-tag"] if len(items) % 3 == 1 else [])
             code, out, logs, exc = prj.run(impl, args)
             after = prj.snapshot()
             commits_after = len(prj.git("log", "--oneline").splitlines())
